@@ -215,69 +215,84 @@ def check_c(ck, repo):
         ck.verdict(t.get("depth") == ctext("self.depth + 1"), "C10.c", f, f"depth={t.get('depth')}", "child depth is parent depth + 1", "child depth is not self.depth + 1: tree_depth_ and the max_depth guard no longer describe the tree")
         ck.verdict(t.get("threshold") == "self.threshold", "C10.c", f, f"threshold={t.get('threshold')}", "children route with the same threshold", "children use another threshold than their parent")
         ck.verdict(t.get("estimator") == "clone(dtlr.estimator)", "C10.c", f, f"estimator={t.get('estimator')}", "each child trains a fresh clone of the base estimator", "a child does not get its own clone of dtlr.estimator")
-    helper_names = {f.name for f in nested}
-    builder_calls = calls(fit, lambda c: isinstance(c.func, ast.Name) and c.func.id in helper_names) if nested else [c for _, c in ctor_sites]
-    depth_ok = [cond_text("self.depth + 1 > dtlr.max_depth", False), cond_text("self.depth >= dtlr.max_depth", False), cond_text("self.depth + 1 <= dtlr.max_depth"), cond_text("self.depth < dtlr.max_depth")]
-    split_ok = [cond_text("X.shape[0] < dtlr.min_samples_split", False), cond_text("X.shape[0] >= dtlr.min_samples_split"), cond_text("len(X) >= dtlr.min_samples_split")]
-    for c in builder_calls:
-        conds = conds_at(repo, fit, c)
-        ck.verdict(any(x in conds for x in depth_ok), "C10.c", fit, c, "children are built only where self.depth + 1 <= dtlr.max_depth", f"a child can be built although self.depth + 1 > dtlr.max_depth: the tree can be deeper than max_depth (conditions on every path: {sorted(conds)})")
-        ck.verdict(any(x in conds for x in split_ok), "C10.c", fit, f"min_samples_split guard before {src_of(c)[:40]}", "no split below min_samples_split", "children can be built with fewer than min_samples_split rows")
-    rets = returns(repo, fit)
-    early = [t for r, t in rets[:-1]]
-    ck.verdict(len(rets) >= 2 and all(t == "self.index" for t in early), "C10.c", fit, f"early returns {early}", "a node that does not split returns its own index", "a non-splitting node does not return its own index")
-    if not nested or len(builder_calls) != 2 or len({c.func.id for c in builder_calls}) != 1:
-        ck.unknown("C10.c", fit, "child builder", f"{len(builder_calls)} calls to a nested child builder; shape not understood")
-    else:
-        helper = [f for f in nested if f.name == builder_calls[0].func.id][0]
-        hp = helper.named_params
-        idx_param = None
-        for f, c in ctor_sites:
-            v = bind(c, ipar).get("index")
-            if isinstance(v, ast.Name) and v.id in hp:
-                idx_param = v.id
-        # the helper's returns: (None, index) and (child, child.fit(rows of the side))
-        mask_param = None
-        kinds = []
-        for r in sorted((x for x in own_nodes(helper.node) if isinstance(x, ast.Return)), key=lambda x: x.lineno):
-            x = ex.norm_expr(r.value, helper, r) if r.value is not None else None
-            if not (isinstance(x, ast.Tuple) and len(x.elts) == 2):
-                kinds.append("?")
+    # the two children, by path evaluation (the child builder - a closure, a method or
+    # straight-line code - is looked through)
+    from .sem import paths, truth_of, RAISE, ptext
+
+    through = tuple(f.name for f in nested)
+    try:
+        ps = [p for p in paths(fit, {}, through=through) if p.ret != RAISE]
+    except AnalysisError as e:
+        ck.unknown("C10.c", fit, "child builder", f"cannot follow the construction of the children: {e}")
+        ps = []
+    DEPTH = ("self.depth + 1 <= dtlr.max_depth", "self.depth < dtlr.max_depth")
+    SPLIT = ("dtlr.min_samples_split <= X.shape[0]", "dtlr.min_samples_split <= len(X)")
+    pX, py_, psw = fit.named_params[1:4]
+    built = {"above": 0, "below": 0}
+    seen_msgs = set()
+
+    def once(ok, target, good, bad):
+        key = (ok, good if ok else bad)
+        if key in seen_msgs:
+            return
+        seen_msgs.add(key)
+        ck.verdict(ok, "C10.c", fit, target, good, bad)
+
+    def child(x):
+        """None -> no child; (call, bindings) for a node construction; 'bad' otherwise"""
+        if x is None or (isinstance(x, ast.Constant) and x.value is None):
+            return None
+        if _ctor_of(x):
+            return x
+        return "bad"
+
+    for p in ps:
+        A, B = p.stores.get("self.above"), p.stores.get("self.below")
+        guards = any(truth_of(p.conds, t) is True for t in DEPTH) and any(truth_of(p.conds, t) is True for t in SPLIT)
+        rt = p.ret_text() if p.ret is not None else None
+        if "self.above" not in p.stores and "self.below" not in p.stores:
+            once(rt == "self.index", f"early return {rt}", "a node that does not split returns its own index", "a non-splitting node does not return its own index")
+            once(not guards, "early return only when too deep / too few rows", "early exits are the depth and min_samples_split guards", "a path returns before building children although both guards pass")
+            continue
+        where = "; ".join(sorted(t[:50] for t, pol in p.conds if pol is False)) or "all tests pass"
+        once(guards, "children built behind the depth and min_samples_split guards", "children are built only where self.depth + 1 <= dtlr.max_depth and X has at least min_samples_split rows", f"a child can be built although self.depth + 1 > dtlr.max_depth or below min_samples_split: the tree can be deeper than max_depth (facts on the path: {sorted(t[:40] for t, _ in p.conds)[:6]})")
+        last = ctext("self.index + 1")
+        expected_index = ctext("self.index + 1")
+        okpath = True
+        for side, x in (("above", A), ("below", B)):
+            c = child(x)
+            if c == "bad":
+                once(False, f"self.{side} = {ptext(x)[:60]}", "", f"self.{side} receives something that is neither None nor a node built by this fit")
+                okpath = False
+                break
+            if c is None:
+                last = expected_index
+                expected_index = ctext(f"({last}) + 1")
                 continue
-            e0, e1 = x.elts
-            if isinstance(e0, ast.Constant) and e0.value is None and isinstance(e1, ast.Name) and e1.id == idx_param:
-                kinds.append("none")
-            elif _ctor_of(e0) and isinstance(e1, ast.Call) and isinstance(e1.func, ast.Attribute) and e1.func.attr == "fit" and norm.dump(e1.func.value, rename=False) == norm.dump(e0, rename=False):
-                a = [ast.unparse(norm.canon(v, rename=False)) for v in e1.args]
-                mp = [p for p in hp if a and a[0] == f"X[{p}]"]
-                okf = bool(mp) and a[:2] == [f"X[{mp[0]}]", f"y[{mp[0]}]"] and len(a) == 5 and a[2] in (ctext(f"sample_weight[{mp[0]}] if sample_weight is not None else None"), ctext(f"None if sample_weight is None else sample_weight[{mp[0]}]")) and a[3:] == ["dtlr", "total_N"] and not e1.keywords
-                ck.verdict(okf, "C10.c", helper, r, "the child is fitted on its side's rows, targets and weights, and its last index is returned", f"the child is fitted with {a}, not with (X[mask], y[mask], sample_weight[mask], dtlr, total_N) of its own side")
-                if mp:
-                    mask_param = mp[0]
-                kinds.append("node")
-            else:
-                kinds.append("?")
-        ck.verdict(sorted(kinds) == ["node", "none"] and idx_param is not None, "C10.c", helper, f"returns {kinds}", "the builder returns (child, last index of its subtree) or (None, index unchanged)", f"the child builder's returns are {kinds}: it must return (child, child.fit(...)) or (None, index)")
-        if idx_param is not None and mask_param is not None:
-            first, second = builder_calls
-            b1, b2 = bind(first, hp), bind(second, hp)
-            i1 = ex.text(b1[idx_param], fit, first) if idx_param in b1 else None
-            ck.verdict(i1 == ctext("self.index + 1"), "C10.c", fit, f"first child index = {i1}", "first child gets self.index + 1", f"the first child gets index {i1}, expected self.index + 1: indices collide or leave the range")
-            t1 = ex.text(first, fit, first)
-            i2 = ex.text(b2[idx_param], fit, second) if idx_param in b2 else None
-            ck.verdict(i2 == ctext(f"({t1})[1] + 1"), "C10.c", fit, f"second child index = {src_of(b2[idx_param]) if idx_param in b2 else None}", "second child gets (last index used by the first subtree) + 1", f"the second child's index is {src_of(b2[idx_param]) if idx_param in b2 else None}, not the first subtree's last index + 1: node indices collide or are not below n_nodes_")
-            t2 = ex.text(second, fit, second)
-            last = rets[-1][1] if rets else None
-            ck.verdict(last == ctext(f"({t2})[1]"), "C10.c", fit, rets[-1][0] if rets else "return last", "fit returns the last index handed out in its subtree", "node.fit does not return the last index used by its second subtree")
-            seen_sides = []
-            for call, tc, b in ((first, t1, b1), (second, t2, b2)):
-                mt = ex.text(b[mask_param], fit, call) if mask_param in b else ""
-                k = _classify(mt)
-                side = k[0] if k else None
-                seen_sides.append(side)
-                vals = [t for _, t in self_attr_value_texts(repo, fit, side)] if side else []
-                ck.verdict(side is not None and vals == [ctext(f"({tc})[0]")], "C10.c", fit, call, f"self.{side} is the child built from the rows routed {side}", f"the child built from mask `{mt}` is not stored as self.{side} (sides exchanged or not a routing mask)")
-            ck.verdict(sorted(s or "?" for s in seen_sides) == ["above", "below"], "C10.c", fit, f"children built for {seen_sides}", "one child per side", "the two children are not built from the two sides")
+            built[side] += 1
+            b = bind(c, ipar)
+            t = {k: ptext(v) for k, v in b.items()}
+            once(t.get("depth") == ctext("self.depth + 1"), f"depth={t.get('depth')}", "child depth is parent depth + 1", "child depth is not self.depth + 1: tree_depth_ and the max_depth guard no longer describe the tree")
+            once(t.get("threshold") == "self.threshold", f"threshold={t.get('threshold')}", "children route with the same threshold", "children use another threshold than their parent")
+            once(t.get("estimator") == "clone(dtlr.estimator)", f"estimator={t.get('estimator')}", "each child trains a fresh clone of the base estimator", "a child does not get its own clone of dtlr.estimator")
+            once(t.get("index") == expected_index, f"{side} child index = {t.get('index', '')[:60]}", "first child gets self.index + 1, second the last index of the first subtree + 1", f"the {side} child gets index {t.get('index', '')[:80]}, expected {expected_index[:80]}: node indices collide or are not below n_nodes_")
+            ct = ptext(c)
+            fits = [k for k in p.calls if isinstance(k.func, ast.Attribute) and k.func.attr == "fit" and ptext(k.func.value) == ct]
+            if len(fits) != 1:
+                once(False, f"{side} child fitted {len(fits)} times", "", f"the {side} child is fitted {len(fits)} times on this path (expected once)")
+                okpath = False
+                break
+            a = [ptext(v) for v in fits[0].args]
+            m = a[0][len(pX) + 1 : -1] if a and a[0].startswith(f"{pX}[") and a[0].endswith("]") else None
+            okf = m is not None and len(a) == 5 and a[1] == f"{py_}[{m}]" and a[2] in (ctext(f"{psw}[{m}] if {psw} is not None else None"), ctext(f"None if {psw} is None else {psw}[{m}]")) and a[3:] == ["dtlr", "total_N"] and not fits[0].keywords
+            once(okf, f"{side} child fit arguments", "the child is fitted on its side's rows, targets and weights", f"the {side} child is fitted with {[x_[:40] for x_ in a]}, not with (X[mask], y[mask], sample_weight[mask], dtlr, total_N) of its own side")
+            k = _classify(m) if m else None
+            once(k is not None and k[0] == side, f"self.{side} built from the rows routed {k[0] if k else '?'}", f"self.above / self.below are the children built from the rows routed above / below", f"the child stored as self.{side} is built from mask `{(m or '')[:60]}` (sides exchanged or not a routing mask)")
+            last = ptext(fits[0])
+            expected_index = ctext(f"({last}) + 1")
+        if okpath:
+            once(rt == last, f"return {('last index of the ' + ('below' if child(B) else 'above' if child(A) else 'own') + ' subtree')}", "fit returns the last index handed out in its subtree", f"node.fit returns {str(rt)[:80]}, not the last index used in its subtree ({last[:80]})")
+    once(built["above"] >= 1 and built["below"] >= 1, f"children built on some path: {built}", "one child per side", "the two children are not built from the two sides")
     # n_nodes_
     top = repo.cls(MOD, "DecisionTreeLogisticRegression")
     fp = _root_fit_function(repo, top)
